@@ -553,3 +553,91 @@ Example C04_roundtrip_unwrap_root_needs_defect_free :
   encode Ex UnwrapRootExamples.uws (q "Colors") m = ROk (JArr [JStr (s "99")]) /\
   decode Ex UnwrapRootExamples.uws (q "Colors") (JArr [JStr (s "99")]) = RErr (s "unknown enum value").
 Proof. exact UnwrapRootExamples.unwrap_root_roundtrip_needs_defect_free. Qed.
+
+(* ==== P11: the map-value unwrap codec (FtUnwrapMap, internal/httpgen/unwrap.go:356-522) ======================= *)
+From SebufProofs Require UnwrapMapFacts.
+
+(* C04 for EVERY message type whose codec is the map-value unwrap one, every schema, every well-typed value,
+   in the region defects_C04 = [] (known classes there: -0.0 in a singular sibling; NaN/Inf siblings make
+   encode fail).  Derived inside: tn is not a well-known type, distinct JSON names, the emitted code compiles.
+   Two computable side conditions, each shown necessary below:
+     gj_enums_rt          every enum number handed to encoding/json (sibling enum fields AND the scalar items of a
+                          wrapper) is declared and its JSON text names, first, a value with that number;
+     reflected_maps_plain a sibling map whose values are messages WITHOUT an unwrap field goes through
+                          encoding/json's reflection: its values are un-annotated (no codec-owning message below,
+                          no present-but-empty bytes field).
+   _partial: the codec-owning values of such a reflected map are the remainder (UnwrapMapFacts.unwrap_map_roundtrip_full). *)
+Theorem C04_roundtrip_unwrap_map_partial : forall E, ExtLaws E -> forall sc tn md m j,
+  find_message (all_messages sc) tn = Some md -> owner_of sc md = Own FtUnwrapMap ->
+  wt sc (KMessage tn) (FM m) = true ->
+  defects_C04 sc tn m = [] ->
+  UnwrapMapFacts.gj_enums_rt sc md m = true -> UnwrapMapFacts.reflected_maps_plain sc md m = true ->
+  encode E sc tn m = ROk j -> decode E sc tn j = ROk (norm sc tn m).
+Proof. exact UnwrapMapFacts.unwrap_map_roundtrip. Qed.
+Print Assumptions C04_roundtrip_unwrap_map_partial.
+
+(* encoding/json both ways on an un-annotated value of any kind (scalars of every kind, repeated scalars, scalar
+   maps, nested structs by reflection, Timestamp as {seconds, nanos}), with the fuel decode supplies *)
+Theorem C04_gj_reflect_roundtrip : forall E, ExtLaws E -> forall sc v k j n,
+  wt sc k v = true -> UnwrapMapFacts.reflectable sc k v = true ->
+  gj_fval E sc k v = ROk j -> (json_size j <= n)%nat -> gj_un E sc (S n) k j = ROk (Some v).
+Proof. exact UnwrapMapFacts.gj_reflect_roundtrip. Qed.
+Print Assumptions C04_gj_reflect_roundtrip.
+
+(* non-vacuity: ScoreBoard (three unwrap maps: message / string / enum items; siblings of every covered shape;
+   fields declared out of number order; the wrappers lose their "note") and Series of the shared schema xs *)
+Example C04_unwrap_map_nonvacuous :
+  UnwrapMapFacts.um_case_ok UnwrapMapFacts.Eu UnwrapMapFacts.ums (q "ScoreBoard")
+    UnwrapMapFacts.board_val UnwrapMapFacts.board_json UnwrapMapFacts.board_back /\
+  UnwrapMapFacts.um_case_ok Ex xs (q "Series")
+    [(s "by_sym", FMap [(VStr (s "A"), FM [(s "bars", FL [FM [(s "a", vstr "x")]; FM []])])]);
+     (s "total_count", vint 4); (s "ratio", FS (VFloat 4609434218613702656))]
+    (JObj [(s "bySym", JObj [(s "A", JArr [JObj [(s "a", JStr (s "x"))]; JObj []])]);
+           (s "totalCount", JNum 4); (s "ratio", jflt 4609434218613702656)])
+    [(s "by_sym", FMap [(VStr (s "A"), FM [(s "bars", FL [FM [(s "a", vstr "x")]; FM []])])]);
+     (s "total_count", vint 4); (s "ratio", FS (VFloat 4609434218613702656))].
+Proof. exact UnwrapMapFacts.unwrap_map_roundtrip_nonvacuous. Qed.
+
+(* gj_enums_rt is needed, (1): an undefined enum number among the scalar items of a wrapper is written "99" by the
+   emitted enum MarshalJSON and refused on the way back; no class of defects_C04 fires (enum-codec-unknown-number
+   looks at sibling fields only) *)
+Example C04_unwrap_map_needs_known_wrapper_enums :
+  UnwrapMapFacts.um_case_but UnwrapMapFacts.Eu UnwrapMapFacts.ums (q "ScoreBoard")
+    [(s "palette", FMap [(VStr (s "k"), FM [(s "cs", FL [FS (VEnum 1); FS (VEnum 99)])])])]
+    false true []
+    (JObj [(s "palette", JObj [(s "k", JArr [JStr (s "red"); JStr (s "99")])])])
+    (RErr (s "unknown enum value")).
+Proof. exact UnwrapMapFacts.unwrap_map_roundtrip_needs_known_wrapper_enums. Qed.
+
+(* gj_enums_rt is needed, (2): two enum values with the same custom enum_value text: DUP_B comes back as DUP_A *)
+Example C04_unwrap_map_needs_unambiguous_enum_json :
+  UnwrapMapFacts.um_case_but UnwrapMapFacts.Eu UnwrapMapFacts.ums (q "DupBoard")
+    [(s "d", FS (VEnum 2))]
+    false true []
+    (JObj [(s "d", JStr (s "same"))])
+    (ROk [(s "d", FS (VEnum 1))]) /\
+  UnwrapMapFacts.um_case_but UnwrapMapFacts.Eu UnwrapMapFacts.ums (q "DupBoard")
+    [(s "by_sym", FMap [(VStr (s "k"), FM [(s "ds", FL [FS (VEnum 2)])])])]
+    false true []
+    (JObj [(s "bySym", JObj [(s "k", JArr [JStr (s "same")])])])
+    (ROk [(s "by_sym", FMap [(VStr (s "k"), FM [(s "ds", FL [FS (VEnum 1)])])])]).
+Proof. exact UnwrapMapFacts.unwrap_map_roundtrip_needs_unambiguous_enum_json. Qed.
+
+(* reflected_maps_plain is needed: `json:"b,omitempty"` drops a present-but-empty optional bytes field of a
+   reflected map value; its presence is lost and no class of defects_C04 fires *)
+Example C04_unwrap_map_needs_reflected_maps_plain :
+  UnwrapMapFacts.um_case_but UnwrapMapFacts.Eu UnwrapMapFacts.ums (q "RefBoard")
+    [(s "opts", FMap [(VStr (s "k"), FM [(s "b", FS (VBytes [])); (s "t", vstr "x")])])]
+    true false []
+    (JObj [(s "opts", JObj [(s "k", JObj [(s "t", JStr (s "x"))])])])
+    (ROk [(s "opts", FMap [(VStr (s "k"), FM [(s "t", vstr "x")])])]).
+Proof. exact UnwrapMapFacts.unwrap_map_roundtrip_needs_reflected_maps_plain. Qed.
+
+(* defects_C04 = [] is needed: -0.0 in a singular sibling is dropped by `x.F != 0` *)
+Example C04_unwrap_map_needs_no_defects :
+  UnwrapMapFacts.um_case_but Ex xs (q "Series")
+    [(s "ratio", FS (VFloat 9223372036854775808))]
+    true true [D4UnwrapSiblingNegZero]
+    (JObj [])
+    (ROk []).
+Proof. exact UnwrapMapFacts.unwrap_map_roundtrip_needs_no_defects. Qed.
